@@ -52,6 +52,14 @@ def impl(case):
         except Exception as e:  # noqa
             return {"exc": type(e).__name__, "msg": str(e)[:200]}
     out["closure_scc"] = chart2(lambda: mk().closure_scc_based())
+    # the caller EDITS the closure it was handed (e.g. K[i,i] -= 1 to get A+) and asks the same graph object again
+    def closure_again():
+        g_ = mk()
+        K = g_.closure_scc_based()
+        for key in list(K):
+            K[key] = Rc.zero
+        return g_.closure_scc_based()
+    out["closure_scc_again"] = chart2(closure_again)
     out["closure_ref"] = chart2(lambda: mk().closure_reference())
     b = Rc.chart()
     for q, w in case["b"]:
@@ -232,14 +240,15 @@ def run(ctx):
                 else:
                     traces += 1
                 if not L["divergent"]:
-                    for name in ("closure_scc", "closure_ref"):
+                    for name in ("closure_scc", "closure_ref", "closure_scc_again"):
                         if isinstance(res[name], dict):
                             continue
                         stats["structural"] += 1
                         evaluations += 1
-                        ok, why = _same_chart(L[name], res[name], 2, R)
+                        Lm = L["closure_scc" if name == "closure_scc_again" else name]     # asked again: the same closure
+                        ok, why = _same_chart(Lm, res[name], 2, R)
                         if not ok:
-                            structural.append({"op": name, "what": why, "model": L[name], "impl": res[name], "case_id": c["id"]})
+                            structural.append({"op": name, "what": why, "model": Lm, "impl": res[name], "case_id": c["id"]})
                         else:
                             traces += 1
                     for name in ("solve_left", "solve_right"):
@@ -257,7 +266,7 @@ def run(ctx):
                 if r0 and isinstance(r0.get("blocks"), list) and sorted(map(json.dumps, res["blocks"])) != sorted(map(json.dumps, r0["blocks"])):
                     semantic.append(_viol(c, hs, "blocks", {"blocks": res["blocks"], "other_seed": r0["blocks"]}))
             # closures against the path-sum oracle
-            for name in ("closure_scc", "closure_ref"):
+            for name in ("closure_scc", "closure_ref", "closure_scc_again"):
                 ch = res[name]
                 if isinstance(ch, dict):
                     semantic.append(_viol(c, hs, name, ch))
